@@ -239,7 +239,7 @@ fn spec_strategy() -> impl Strategy<Value = EncSpec> {
         prop::collection::vec(0u8..3, 0..5),
         (unknown_strategy(&[1, 2, 3, 4, 5, 6, 7, 8]), unknown_strategy(&[1, 3, 4, 5]), unknown_strategy(&[1, 2, 3, 4, 5, 6]), unknown_strategy(&[1, 2, 3])),
         (any::<bool>(), any::<bool>()),
-        prop_oneof![2 => Just(BTreeMap::new()), 1 => prop::collection::btree_map("[a-z]{0,6}", prop::collection::vec(any::<u8>(), 0..20), 1..3)],
+        prop_oneof![2 => Just(BTreeMap::new()), 1 => prop::collection::btree_map(prop_oneof![3 => "[a-z]{0,6}".boxed(), 1 => ("[a-z]{0,70}", "[éß✓ж𝄞]{1,3}", "[a-z]{0,8}").prop_map(|(a, b, c)| format!("{}{}{}", a, b, c)).boxed()], prop::collection::vec(any::<u8>(), 0..20), 1..3)],
         prop_oneof![Just("0.13.0".to_string()), Just(String::new()), Just("9.99.9-other-tool".to_string())],
         prop_oneof![3 => Just(0u8), 1 => 1u8..50],
         prop_oneof![3 => Just(vec![]), 1 => prop::collection::vec(any::<u16>(), 1..8), 1 => Just(vec![9u16, 8, 7, 6, 5, 4, 3, 2, 1, 0])],
